@@ -707,4 +707,56 @@ theorem forced_query_distinct (s h p : Str) :
   have := congrArg List.length h'
   simp at this
 
+/-! ### a Location reference resolved by the model is the reference resolved by RFC 3986 §5.2.2 -/
+
+/-- the longest prefix that ends in "/" -/
+def dirOf (p : Str) : Str := (p.reverse.dropWhile (· ≠ '/')).reverse
+
+theorem dirOf_slash_cons (p : Str) : dirOf ('/' :: p) = '/' :: dirOf p := by
+  unfold dirOf
+  rw [List.reverse_cons, List.dropWhile_append]
+  split
+  · rename_i he
+    have : p.reverse.dropWhile (fun x => decide (x ≠ '/')) = [] := by simpa using he
+    rw [this]; simp
+  · simp
+
+theorem dirOf_cons_head (c : Char) (p : Str) : dirOf (c :: p) = [] ∨ ∃ t, dirOf (c :: p) = c :: t := by
+  unfold dirOf
+  rw [List.reverse_cons, List.dropWhile_append]
+  split
+  · by_cases hc : c = '/'
+    · right; subst hc; exact ⟨[], by simp⟩
+    · left; simp [hc]
+  · right
+    exact ⟨(p.reverse.dropWhile (fun x => decide (x ≠ '/'))).reverse, by simp⟩
+
+/-- rooting commutes with the merge: merging onto the rooted base path, or merging first and rooting the
+    result (what the code does: the keyer roots the merged path), is the same path -/
+theorem rooted_merge (h p r : Str) (c : Char) (t : Str) (hh : h ≠ []) (hr : r = c :: t) (hc : c ≠ '/') :
+    Spec.rooted h (dirOf p ++ r) = Spec.rooted h (Spec.mergePaths (Spec.rooted h p) r) := by
+  obtain ⟨a, h', rfl⟩ : ∃ a h', h = a :: h' := by cases h with
+    | nil => exact absurd rfl hh
+    | cons a h' => exact ⟨a, h', rfl⟩
+  subst hr
+  cases p with
+  | nil =>
+    simp [Spec.rooted, Spec.mergePaths, dirOf, hc]
+  | cons d p' =>
+    by_cases hd : d = '/'
+    · subst hd
+      have : Spec.rooted (a :: h') ('/' :: p') = '/' :: p' := by simp [Spec.rooted]
+      rw [this]
+      simp only [Spec.mergePaths, List.isEmpty_cons, Bool.false_eq_true, ↓reduceIte]
+      rfl
+    · have : Spec.rooted (a :: h') (d :: p') = '/' :: d :: p' := by simp [Spec.rooted, hd]
+      rw [this]
+      simp only [Spec.mergePaths, List.isEmpty_cons, Bool.false_eq_true, ↓reduceIte]
+      change _ = Spec.rooted (a :: h') (dirOf ('/' :: d :: p') ++ c :: t)
+      rw [dirOf_slash_cons]
+      rcases dirOf_cons_head d p' with he | ⟨t', he⟩
+      · rw [he]; simp [Spec.rooted, hc]
+      · rw [he]; simp [Spec.rooted, hd]
+
+
 end Httpcache
